@@ -175,8 +175,13 @@ class SafetyMonitor(Monitor):
                     raise core.Violation('C04 position %d was reported committed as %r, now %s reports it committed as %r (%r)' % (
                         p, show(old), nid, show(e), ev), sig='committed-entry-changed')
         if not restarted and post.applied is not None and post.applied < pre.applied and 'C04' in C:
+            sig = 'applied-backwards'
+            if ev[0] == 'D' and post.first != pre.first and post.log and len(post.log) <= 2:
+                # culprit signature of a recorded finding: a complete snapshot that is older than what the node
+                # has applied was installed (log replaced by the snapshot's two entries)
+                sig = 'older-snapshot-installed'
             raise core.Violation('C04 applied index of %s moved backwards %d -> %d at %r' % (nid, pre.applied, post.applied, ev),
-                                 sig='applied-backwards')
+                                 sig=sig)
 
         # ---- apply observations (C01) and callbacks (C02)
         for o in obs:
